@@ -8,7 +8,9 @@ Tie C, two layers, one Lean model (Model.Authz, driver exe c28):
  * evaluator layer: the real BlockEvaluator.TransactionGroup with AuthAddr fields and RekeyTo (package ledger/eval).
 Monitors (implementation alone): an ACCEPTED transaction has exactly one kind of authorization and it was really made
 by its authorizer's key(s) over this very transaction / program; an accepted group's members were authorized by the
-sender's current spending key and RekeyTo took effect as written."""
+sender's current spending key and RekeyTo took effect as written; a group accepted through the verified-transaction
+cache verifies from scratch.  Tie F: tools/c28facts regenerates the list of SignedTxn fields the cache lookup compares
+(Gen/AuthzCacheKey.lean); Props/C28.cache_compares_all_fields is proved about it."""
 import os, re
 import common, vf
 
@@ -233,6 +235,87 @@ def eval_layer(ctx, env, replay_ops):
         d[k] = d.get(k, 0) + 1
 
 
+# ----------------------------------------------------------------------------- verified-transaction cache path
+
+def cache_case_of(ops, i):
+    j = i
+    while j > 0 and ops[j] != "c reset":
+        j -= 1
+    return ops[j:i + 1]
+
+
+def cache_monitor(ops, impl):
+    """Implementation alone: a group accepted THROUGH the cache (filtered out as already verified, or verified by
+    PaysetGroups) verifies from scratch without any cache, and its authorization is genuine (ground truth)."""
+    for i, (o, a) in enumerate(zip(ops, impl)):
+        if not o.startswith("c via "):
+            continue
+        if a.startswith("PANIC") or " ; scratch " not in a:
+            return i, "cache path: " + a[:200]
+        via, scratch = a.split(" ; scratch ", 1)
+        accepted = via == "hit" or via == "miss ok"
+        if accepted and scratch != "ok":
+            return i, "accepted through the verified-transaction cache (%s) but the very same bytes do not verify from scratch: %s" % (via, scratch)
+        if accepted:
+            hit = monitor("g " + o[len("c via "):], "ok")
+            if hit:
+                return i, "accepted through the verified-transaction cache (%s): %s" % (via, hit)
+    return None
+
+
+def cache_layer(ctx, env, replay_ops):
+    e = dict(env)
+    name = "c28cache"
+    if replay_ops is not None:
+        rp = os.path.join(ctx.work, name + ".replay")
+        open(rp, "w").write("\n".join(replay_ops) + "\n")
+        e["VERIF_REPLAY"] = rp
+    rc, out = ctx.go_test("./data/transactions/verify", "TestVerifC28Cache", env=e, timeout=1700)
+    opsf, implf = os.path.join(ctx.work, name + ".ops"), os.path.join(ctx.work, name + ".impl")
+    if rc != 0 or not os.path.exists(opsf):
+        ctx.tie_failures.append("harness ./data/transactions/verify TestVerifC28Cache failed to run (rc=%d): %s" % (rc, out[-600:]))
+        return
+    ops, impl = ctx.read_lines(opsf), ctx.read_lines(implf)
+    def ck(o):
+        f = o.split(" ", 3)
+        if len(f) < 3 or f[1] == "reset":
+            return "cache:reset"
+        m = re.search(r" m=(\S+)", o)
+        return "cache:%s:%s" % (f[1], (m.group(1).split(":")[0] if m else "?"))
+    ctx.account(ops, trivial=lambda o: o == "c reset", kind_of=ck)
+    mf = os.path.join(ctx.work, name + ".model.out")
+    # the model compares ALL five fields (what cache_compares_all_fields / cache_hit_sound demand), whatever the source does
+    if ctx.driver("c28", ["all-fields"], opsf, mf) != 0:
+        ctx.tie_failures.append("driver c28 failed on the cache ops")
+        return
+    model = ctx.read_lines(mf)
+    hit = cache_monitor(ops, impl)
+    if hit:
+        i, msg = hit
+        ctx.violation("monitor (cache): " + msg, {"kind": "monitor", "layer": "cache", "ops": cache_case_of(ops, i), "impl_out": impl[i]}, found_input=True)
+    bad = ctx.compare(ops, impl, model, "model")
+    for (i, op, a, b) in bad[:3]:
+        ctx.violation("the verified-transaction cache path decides differently from the proved model (hit / miss / verdict)",
+                      {"kind": "correspondence", "layer": "cache", "ops": cache_case_of(ops, i), "index": i, "impl_out": a, "model_out": b}, found_input=True)
+    d = ctx.cov["distribution"]
+    for a in impl:
+        k = "cache-result:" + (a.split(" ;")[0] if a.startswith(("hit", "miss")) else " ".join(a.split()[:2]))
+        k = " ".join(k.split()[:3])
+        d[k] = d.get(k, 0) + 1
+
+
+def cache_facts(ctx):
+    """Tie F: regenerate Gen/AuthzCacheKey.lean (fields the cache lookup reads) from the current source with go/ast."""
+    out = os.path.join(vf.LEAN, "AlgoVerif", "Gen", "AuthzCacheKey.lean")
+    rc, txt = ctx.go_run_tool("c28facts", ["-repo", vf.REPO, "-out", out])
+    if rc != 0:
+        ctx.tie_failures.append("c28facts could not extract the fields compared by GetUnverifiedTransactionGroups: " + txt.strip()[-300:])
+        return
+    m = re.search(r"compared=(\S*)", txt)
+    ctx.cov["distribution"]["fact:cache-compared-fields=" + (m.group(1) if m else "?")] = 1
+    ctx.trusted.append("tools/c28facts (go/ast: SignedTxn fields selected in GetUnverifiedTransactionGroups and the SignedTxn methods it calls)")
+
+
 # ----------------------------------------------------------------------------- anchors (syntactic facts the model takes from the code)
 
 def anchors(ctx):
@@ -261,15 +344,17 @@ def run(ctx, replay_ops=None):
         "cryptography is ideal in the TIE: a signature verifies iff it is byte-for-byte the signature the harness made with that key over those bytes; SHA-512/256 addresses collide only when their preimages are equal (the harness derives addresses itself with Go's crypto/sha512)",
         "the THEOREMS hold for every interpretation of the signature / hash / TEAL parameters; the tamper theorems assume SigBinds, SigUnique, MsigAddrInj, ProgAddrInj as explicit hypotheses",
         "oracle inputs taken from the real code because they are outside this property: Transaction.WellFormed, transactions.CheckTxnGroup, logic.CheckSignature / EvalSignatureFull (program approves), the heartbeat one-time signature, consensus parameters",
+        "verified-transaction cache: bucket rotation / eviction and pinning are not modelled (a family never fills a bucket); equal txids mean equal transaction bodies",
         "the batch verifier accepts iff every enqueued signature verifies (both Ed25519 batch implementations are run on every case and must agree)",
     ]
     anchors(ctx)
+    cache_facts(ctx)
     proved = ctx.prove(["AlgoVerif.Props.C28"])
     ok, out = ctx.lean_build(["c28"])
     if not ok:
         raise RuntimeError("driver c28 does not build: " + out[-800:])
     env = {}
-    for var, f in (("VERIF_C28_CORPUS", "verify.ops"), ("VERIF_C28_EVAL_CORPUS", "eval.ops")):
+    for var, f in (("VERIF_C28_CORPUS", "verify.ops"), ("VERIF_C28_EVAL_CORPUS", "eval.ops"), ("VERIF_C28_CACHE_CORPUS", "cache.ops")):
         p = os.path.join(vf.VERIF, "corpus", "C28", f)
         if os.path.exists(p):
             env[var] = p
@@ -280,12 +365,15 @@ def run(ctx, replay_ops=None):
                        "(by sig, Msig, LMsig, Falcon; approving / rejecting / erring / argument-dependent / too-new / bad-version / oversized programs), Falcon accounts, the "
                        "state-proof sender, heartbeats; senders plain, rekeyed (AuthAddr right / wrong / = sender); 45% of the groups get 1-2 changes after signing "
                        "(transaction fields, signature bits, subsig edits, program/args, delegation, second kind attached, AuthAddr) and 12% a byte-level change of the wire "
-                       "encoding; evaluator layer: sequences of payment groups with AuthAddr fields and RekeyTo over 6 accounts, 70% rightly authorized; "
+                       "encoding; cache path: families of 2-5 SignedTxn variants with the same transaction bodies (same txids) but another AuthAddr / Sig / subsig set / "
+                       "LogicSig args, delegation or program / PQ fields, one verified into a shared VerifiedTransactionCache, the others presented through "
+                       "GetUnverifiedTransactionGroups + PaysetGroups; evaluator layer: sequences of payment groups with AuthAddr fields and RekeyTo over 6 accounts, 70% rightly authorized; "
                        "trivial = the empty group / non-group lines; distinct = distinct op lines")
-    vops = eops = None
+    vops = eops = cops = None
     if replay_ops is not None:
         vops = [o for o in replay_ops if o.startswith("g ")] or None
-        eops = [o for o in replay_ops if not o.startswith("g ")] or None
+        cops = [o for o in replay_ops if o.startswith("c ")] or None
+        eops = [o for o in replay_ops if not o.startswith(("g ", "c "))] or None
     if replay_ops is None or vops:
         res = common.correspondence(ctx, pkg="./data/transactions/verify", test="TestVerifC28", name="c28", drivers=[("c28", [], "model")],
                                     trivial=trivial, kind_of=kind_of, env=env, timeout=3300 if ctx.tier == "thorough" else 1500,
@@ -304,6 +392,8 @@ def run(ctx, replay_ops=None):
                 m = re.search(r"^g proto=(\S+)", op)
                 if m:
                     d["proto:" + m.group(1)] = d.get("proto:" + m.group(1), 0) + 1
+    if replay_ops is None or cops:
+        cache_layer(ctx, env, cops)
     if replay_ops is None or eops:
         eval_layer(ctx, env, eops)
 
